@@ -339,7 +339,7 @@ pub fn esc(text: &str) -> String {
 
 pub const LABELS: &[&str] = &["A", "B"];
 pub const TYPES: &[&str] = &["T", "U"];
-const INTS: &[i64] = &[0, 1, 1, 2, 2, 3, -1, 5];
+const INTS: &[i64] = &[0, 1, 2, 3, 4, 5, -1, 2];
 const STRS: &[&str] = &["a", "b", "a", "B", ""];
 
 pub fn pv_tok(l: &Lit) -> String {
@@ -400,7 +400,7 @@ pub fn estimate_rows(q: &[Clause], g: &GraphShape) -> f64 {
 
 /// node props: k (int), s (string), b (bool); rel props: w (int)
 pub fn gen_graph(rng: &mut Rng, out: &mut dyn Write) -> GraphShape {
-    let n = if rng.chance(1, 12) { rng.below(2) as usize } else { rng.range(2, 5) as usize };
+    let n = if rng.chance(1, 12) { rng.below(2) as usize } else { rng.range(3, 5) as usize };
     for _ in 0..n {
         let mut labels = vec![];
         for (i, l) in LABELS.iter().enumerate() {
@@ -412,7 +412,7 @@ pub fn gen_graph(rng: &mut Rng, out: &mut dyn Write) -> GraphShape {
             labels.reverse();
         }
         let mut props = vec![];
-        if rng.chance(3, 4) {
+        if rng.chance(9, 10) {
             props.push(format!("k=i{}", rng.pick(INTS)));
         }
         if rng.chance(1, 2) {
@@ -532,26 +532,46 @@ impl<'a> Gen<'a> {
 
     /// boolean-valued expression; biased towards predicates that depend on the row
     pub fn bool_expr(&mut self, sc: &Scope, depth: u32) -> Expr {
-        let r = self.rng.below(if depth == 0 { 8 } else { 12 });
+        if depth > 3 {
+            return Expr::Lit(Lit::Bool(true));
+        }
+        let r = self.rng.below(if depth == 0 { 9 } else { 12 });
         match r {
-            0..=3 => {
-                // int comparison, non-constant side first when one exists
-                let a = self.int_expr(sc, false).unwrap_or_else(|| self.int_lit());
-                let mut b = self.int_expr(sc, true).unwrap();
-                if a == b {
-                    b = self.int_lit();
+            0..=3 | 8 => {
+                // comparison of a row-dependent value against a value from the middle of its range
+                match (self.int_expr(sc, false), self.str_expr(sc, false)) {
+                    (Some(a), _) => {
+                        let mut b = if self.rng.chance(2, 3) {
+                            Expr::Lit(Lit::Int(*self.rng.pick(&[1i64, 2, 2])))
+                        } else {
+                            self.int_expr(sc, true).unwrap()
+                        };
+                        if a == b {
+                            b = self.int_lit();
+                        }
+                        let op = *self.rng.pick(&["eq", "ne", "lt", "le", "gt", "ge", "lt", "ge"]);
+                        if self.rng.chance(1, 6) { Expr::Cmp(op, Box::new(b), Box::new(a)) } else { Expr::Cmp(op, Box::new(a), Box::new(b)) }
+                    }
+                    (None, Some(a)) => {
+                        let b = Expr::Lit(Lit::Str(self.rng.pick(&["a", "b"]).to_string()));
+                        let op = *self.rng.pick(&["eq", "ne", "lt", "ge"]);
+                        Expr::Cmp(op, Box::new(a), Box::new(b))
+                    }
+                    (None, None) => Expr::Lit(Lit::Bool(self.rng.chance(2, 3))),
                 }
-                let op = *self.rng.pick(&["eq", "eq", "ne", "lt", "le", "gt", "ge"]);
-                if self.rng.chance(1, 6) { Expr::Cmp(op, Box::new(b), Box::new(a)) } else { Expr::Cmp(op, Box::new(a), Box::new(b)) }
             }
             4 => {
-                let a = self.str_expr(sc, false).unwrap_or_else(|| self.str_lit());
-                let mut b = self.str_expr(sc, true).unwrap();
-                if a == b {
-                    b = self.str_lit();
+                match self.str_expr(sc, false) {
+                    Some(a) => {
+                        let mut b = self.str_expr(sc, true).unwrap();
+                        if a == b {
+                            b = Expr::Lit(Lit::Str("a".into()));
+                        }
+                        let op = *self.rng.pick(&["eq", "ne", "lt", "ge"]);
+                        Expr::Cmp(op, Box::new(a), Box::new(b))
+                    }
+                    None => self.bool_expr(sc, depth + 1),
                 }
-                let op = *self.rng.pick(&["eq", "ne", "lt", "ge"]);
-                Expr::Cmp(op, Box::new(a), Box::new(b))
             }
             5 => {
                 let e = match self.int_expr(sc, false) {
@@ -588,7 +608,7 @@ impl<'a> Gen<'a> {
                     _ => Expr::Xor(Box::new(a), Box::new(b)),
                 }
             }
-            _ => Expr::Not(Box::new(self.bool_expr(sc, depth + 1))),
+            _ => Expr::Not(Box::new(self.bool_expr(sc, depth + 2))),
         }
     }
 
